@@ -35,6 +35,30 @@ CHECKS = {
    tech="deterministic simulation: seeded interleaving at every lock operation of the real SafeKV with owned map iteration order; oracle = porcupine linearizability vs map model with snapshot operations, Go race detector",
    text="Seeded search over interleavings at every lock/unlock of the real mapz/safekv.go with the map iteration order owned by the simulator; each run is checked by the race detector and for linearizability of all methods (snapshot operations carry their whole output) against a map model. Evidence over the seeds explored, not a proof.",
    note="Trusted: the Go race detector and memory model, porcupine, the lock model in ssync (admission only; the real RWMutex is taken), the map-range rewrite (an order the language permits)."),
+ "C02": dict(engine="C", level="exploration", ref="DESIGN.md 6, 7 (C02)",
+   tech="deterministic simulation: sequential run with the list's private PRNG and the clock that seeds it owned by the simulator (tower heights become a seeded, adversarially distributed input); oracle = sorted-map reference model stepped op by op with full cross-check",
+   text="Seeded operation histories over both list flavours, 7 key types/comparators and three start states (New, Init, zero value) with every tower height drawn from the run seed under production and adversarial distributions; every return value and, after each mutation, every enumeration is compared with a sorted-map model. Evidence over the seeds explored, not a proof.",
+   note="Trusted: the reference model (Go map + sort), the import redirection of math/rand and time in listz, math/rand.Rand arithmetic."),
+ "C03": dict(engine="C", level="exploration", ref="DESIGN.md 6, 7 (C03)",
+   tech="deterministic simulation: sequential run with the PRNG/clock of the embedded bucket skip list owned by the simulator; oracle = map[uint32] + sorted slice reference model, all three enumerations compared in full",
+   text="Seeded histories of Add/Remove/Contains/Len and arithmetic runs that push buckets across the 4096 threshold in both directions, over few and many high-16 buckets, with the bucket list's tower heights simulated; Iter, Range and All are each compared (length and content, complete and early-stopped) with the sorted member list. Evidence over the seeds explored, not a proof.",
+   note="Trusted: the reference model, the import redirection in listz/setz."),
+ "C09": dict(engine="C", level="fault_enumeration", ref="DESIGN.md 6, 7 (C09)",
+   tech="deterministic simulation with fault injection: encryptor -> medium -> decryptor with simulated entropy source, io.Reader/io.Writer peers (chunking, EOF placement, errors after k bytes) and medium faults (bit flips per field, truncation, extension, text substitution, wrong secret/AAD); oracle = independent OpenSSL EVP_BytesToKey/AES reference, round trip, prefix-only-on-fault",
+   text="Seeded enumeration of fault kinds and positions: every reader chunking policy the io contract allows, peer errors after k bytes on either side, entropy failures and short reads, and medium faults in every field of the envelope, with fault-free and faulted classes kept apart; outputs are compared with an independent standard-library derivation of the OpenSSL format. Fault positions are sampled, not all enumerated.",
+   note="Trusted: Go's crypto/md5, crypto/aes, crypto/cipher as the reference for openssl enc -aes-256-cbc -md md5; the io.Reader/io.Writer contract as written in package io."),
+ "C18": dict(engine="C", level="exploration", ref="DESIGN.md 6, 7 (C18)",
+   tech="deterministic simulation of Go's randomised map iteration order (seeded permutation of every map range in algz) over generated inputs; oracle = brute force over all subsets / vertex sets",
+   text="The weakest claim: the only nondeterminism in algz is map iteration order, which the simulator owns (it changes which overshoot totals FindDpSolvers keeps); inputs are generated and compared with exhaustive enumeration of all 2^n selections (n <= 12) and all vertex subsets (<= 9 vertices). Evidence over the seeds explored.",
+   note="Trusted: the brute-force oracles; the map-range rewrite (an order the language permits)."),
+ "C19": dict(engine="B", level="exploration", ref="DESIGN.md 5, 7 (C19)",
+   tech="deterministic simulation: testing/synctest bubble with a yield inserted before every statement of goz.go, one seeded choice per step of which goroutine proceeds, fake clock; faults = task panics, stalled tasks; invariants checked at every quiescent point plus bounded liveness",
+   text="Seeded search over interleavings of the submitting goroutine and the workers at statement granularity inside a synctest bubble, with panicking and blocking tasks injected; at every quiescent point: running <= limit, each task entered at most once; Wait returns only after all finished; handler received exactly the panic values; slots recovered. Evidence over the seeds explored, not a proof.",
+   note="Trusted: Go 1.26 testing/synctest quiescence detection, the yield-insertion rewrite (adds calls only), the harness bookkeeping."),
+ "C20": dict(engine="C", level="exploration", ref="DESIGN.md 6, 7 (C20)",
+   tech="deterministic simulation: sequential run with simulated clock trace (time.Since), simulated entropy incl. failures forcing the math/rand fallback, simulated rand.Source; plus one finite table (ParseBase32 invalid bytes) enumerated exhaustively",
+   text="Seeded clock traces (before start, next to millisecond boundaries, around 2^41 ms), entropy plans (errors, short reads, extreme bytes) and character sets; id shape is checked by arithmetic on the simulated clock value, strings by rune count and membership, numerals against strconv, CountGenerator by a sweep over elapsed times; the invalid-byte clause by exhaustive enumeration of a 9984-entry table. Evidence over the seeds explored; exhaustive only for that table.",
+   note="Trusted: strconv as numeral reference; the import redirection of time, crypto/rand, math/rand in randz."),
 }
 
 def main():
